@@ -550,6 +550,21 @@ class SymRange:
         self.lo, self.hi = lo, hi
 
 
+class ObjArray(tuple):
+    """np.array of a concrete list of objects / None (LayoutSwapper.getAxes): only elementwise ==/!= None and np.nonzero."""
+
+
+class SymList:
+    """List of symbolic length whose i-th element is given by a function of (state, index): the pieces of
+    np.split(x, points) for an array of cut points.  Supports [i], [:-1], len() and enumerate()."""
+
+    def __init__(self, n, fn, drop_last=0):
+        self.n, self.fn, self.drop_last = n, fn, drop_last
+
+    def length(self):
+        return binop('Sub', self.n, self.drop_last) if self.drop_last else self.n
+
+
 class FunVal:
     """Function value (callable of the repo, or a function parameter with an abstract contract)."""
 
